@@ -121,6 +121,95 @@ func C07(c *Ctx) {
 			c.checkScalar(accS, accK, "object updated in place", det)
 			c.checkScalar(invS, ref.SInv(accK), "Invert of the same object after an in-place update", det)
 		}
+		// a scalar with a past: the object is used as a multiplier (which is where an
+		// implementation would derive and keep per-object data such as an encoding or a
+		// recoding), then assigned through each mutating method in turn; after every assignment
+		// its encoding and its use as a multiplier must be those of the new value
+		if i%8 == 5 {
+			obj := new(edwards25519.Scalar).Set(sx)
+			G := edwards25519.NewGeneratorPoint()
+			useAsMultiplier := func(k int) *edwards25519.Point {
+				switch k % 5 {
+				case 0:
+					return new(edwards25519.Point).ScalarBaseMult(obj)
+				case 1:
+					return new(edwards25519.Point).ScalarMult(obj, G)
+				case 2:
+					return new(edwards25519.Point).VarTimeDoubleScalarBaseMult(obj, G, edwards25519.NewScalar())
+				case 3:
+					return new(edwards25519.Point).VarTimeDoubleScalarBaseMult(edwards25519.NewScalar(), G, obj)
+				default:
+					return new(edwards25519.Point).MultiScalarMult([]*edwards25519.Scalar{obj}, []*edwards25519.Point{G})
+				}
+			}
+			cur := new(big.Int).Set(x.K)
+			first := r.Intn(5)
+			useAsMultiplier(first)
+			c.checkScalar(obj, cur, "after use as a multiplier", det)
+			steps := 3 + r.Intn(4)
+			for st := 0; st < steps; st++ {
+				var what string
+				switch r.Intn(12) {
+				case 0:
+					obj.Add(obj, sy)
+					cur, what = ref.SAdd(cur, y.K), "Add in place"
+				case 1:
+					obj.Subtract(sz, obj)
+					cur, what = ref.SSub(z.K, cur), "Subtract (receiver = second argument)"
+				case 2:
+					obj.Negate(obj)
+					cur, what = ref.SNeg(cur), "Negate in place"
+				case 3:
+					obj.Multiply(obj, sy)
+					cur, what = ref.SMul(cur, y.K), "Multiply in place"
+				case 4:
+					obj.MultiplyAdd(sy, sz, obj)
+					cur, what = ref.SAdd(ref.SMul(y.K, z.K), cur), "MultiplyAdd (receiver = addend)"
+				case 5:
+					obj.MultiplyAdd(obj, sy, sz)
+					cur, what = ref.SAdd(ref.SMul(cur, y.K), z.K), "MultiplyAdd (receiver = first factor)"
+				case 6:
+					obj.Invert(obj)
+					cur, what = ref.SInv(cur), "Invert in place"
+				case 7:
+					obj.Set(sz)
+					cur, what = new(big.Int).Set(z.K), "Set"
+				case 8:
+					b := ref.IntToLE32(ref.Sc(y.K))
+					obj.SetCanonicalBytes(b[:])
+					cur, what = new(big.Int).Set(y.K), "SetCanonicalBytes"
+				case 9:
+					wide := r.Bytes(64)
+					obj.SetUniformBytes(wide)
+					cur, what = ref.Sc(ref.LEToInt(wide)), "SetUniformBytes"
+				case 10:
+					b := r.Bytes(32)
+					obj.SetBytesWithClamping(b)
+					cur, what = ref.Sc(ref.Clamp(b)), "SetBytesWithClamping"
+				default: // a failed setter leaves everything as it was
+					bad := ref.IntToLE32(new(big.Int).Add(ref.L, big.NewInt(int64(r.Intn(3)))))
+					obj.SetCanonicalBytes(bad[:])
+					what = "failed SetCanonicalBytes"
+				}
+				ev("object-with-a-past:" + what)
+				if !c.checkScalar(obj, cur, "object with a past: "+what, det) {
+					break
+				}
+				if st == steps-1 || r.Chance(1, 3) {
+					k := r.Intn(5)
+					got := useAsMultiplier(k)
+					cb := ref.IntToLE32(ref.Sc(cur))
+					fresh, err := new(edwards25519.Scalar).SetCanonicalBytes(cb[:])
+					if err == nil && got.Equal(new(edwards25519.Point).ScalarBaseMult(fresh)) != 1 {
+						d := det()
+						d["what"], d["multiplication"], d["value"] = what, k, intHex(cur)
+						c.Fail("a scalar assigned in place multiplies as a different value than a fresh scalar of the same value", d)
+						break
+					}
+					c.checkScalar(obj, cur, "object with a past: after use as a multiplier following "+what, det)
+				}
+			}
+		}
 		// Equal
 		eq := sx.Equal(sy)
 		ev("Equal")
